@@ -127,7 +127,7 @@ func (w *World) ruleInternalErrorsPropagate(r *Report, rule string, min int) {
 			// whose handling (the value is consumed, the loop continues) is C05's.
 			never, lookup := true, false
 			for _, cal := range w.calleesOf(cs.call) {
-				if !w.inPkg(cal) || !neverFails(cal) {
+				if !w.inPkg(cal) || !(neverFails(cal) || neverFailsAt(cs.call, cal)) {
 					never = false
 				}
 				if isFieldLookup(w, cal) >= 0 {
@@ -137,6 +137,13 @@ func (w *World) ruleInternalErrorsPropagate(r *Report, rule string, min int) {
 			n++
 			if never {
 				o := r.add(rule, fmt.Sprintf("%s · %s", fnName(fn), cs.key()), w.instrPos(cs.call), true, "no return of the callee carries an error: nothing to consume")
+				o.Trivial = true
+				continue
+			}
+			if w.neverFailsHere(cs.call) {
+				// `key, _ := EnsureInterface(rawKey, nil)`: the callee only hands its error
+				// argument back, and this site passes nil (rules_decerr_site.go)
+				o := r.add(rule, fmt.Sprintf("%s · %s", fnName(fn), cs.key()), w.instrPos(cs.call), true, "every return of the callee carries nil or the error it was handed, and this call hands it nil: nothing to consume")
 				o.Trivial = true
 				continue
 			}
@@ -167,6 +174,59 @@ func neverFails(fn *ssa.Function) bool {
 		if ret, ok := b.Instrs[len(b.Instrs)-1].(*ssa.Return); ok {
 			c, isC := ret.Results[idx].(*ssa.Const)
 			if !isC || !c.IsNil() {
+				return false
+			}
+		}
+	}
+	return true
+}
+
+// neverFailsAt: at THIS call the callee cannot report an error: every return of the
+// callee carries, as its error operand, the nil constant or one of the callee's own
+// error parameters handed on untouched (possibly through φ-nodes), and the call
+// passes the nil constant for each such parameter (`it, _ := EnsureInterface(item,
+// nil)` after the caller has tested the element read's error itself: the helper only
+// forwards the error it is given).  Static calls only (the operands are matched
+// with the parameters by position).
+func neverFailsAt(c *ssa.Call, fn *ssa.Function) bool {
+	idx := errIndex(fn.Signature)
+	if idx < 0 || fn.Blocks == nil || c.Call.IsInvoke() || c.Call.StaticCallee() != fn || len(c.Call.Args) != len(fn.Params) {
+		return false
+	}
+	nilArg := map[*ssa.Parameter]bool{}
+	for i, p := range fn.Params {
+		if k, isC := c.Call.Args[i].(*ssa.Const); isC && k.IsNil() && types.Identical(p.Type(), fn.Signature.Results().At(idx).Type()) {
+			nilArg[p] = true
+		}
+	}
+	if len(nilArg) == 0 {
+		return false
+	}
+	seen := map[ssa.Value]bool{}
+	var isNil func(v ssa.Value) bool
+	isNil = func(v ssa.Value) bool {
+		if seen[v] {
+			return true
+		}
+		seen[v] = true
+		switch x := v.(type) {
+		case *ssa.Const:
+			return x.IsNil()
+		case *ssa.Parameter:
+			return nilArg[x]
+		case *ssa.Phi:
+			for _, e := range x.Edges {
+				if !isNil(e) {
+					return false
+				}
+			}
+			return true
+		}
+		return false
+	}
+	for _, b := range fn.Blocks {
+		if ret, ok := b.Instrs[len(b.Instrs)-1].(*ssa.Return); ok {
+			if !isNil(ret.Results[idx]) {
 				return false
 			}
 		}
